@@ -232,6 +232,59 @@ func c01Scenarios(tier string) []*world.Scenario {
 			}
 		}
 	}
+	// replies that are EMPTY (empty bulk, empty array, null) in every position of short pipelines, alone and in one chunk
+	{
+		empties := map[string][]byte{keysA[9]: []byte("$0\r\n\r\n"), keysB[9]: []byte("*0\r\n"), keysA[10]: []byte("$-1\r\n"), keysB[10]: []byte("*1\r\n$0\r\n\r\n")}
+		mkE := func(k string) Req {
+			r := GetReq(k)
+			r.Kind, r.Expect = "EMPTY", empties[k]
+			return r
+		}
+		shapes := [][]Req{
+			{mkE(keysA[9])}, {mkE(keysA[9]), GetReq(keysA[0])}, {GetReq(keysA[0]), mkE(keysA[9]), PingReq(), GetReq(keysA[1])},
+			{mkE(keysB[9]), GetReq(keysB[0]), mkE(keysA[10]), GetReq(keysA[0])}, {mkE(keysB[10]), mkE(keysB[9]), GetReq(keysB[1])},
+			{MGetReq(keysA[0], keysB[0]), mkE(keysA[9]), MGetReq(keysA[1], keysB[1])},
+		}
+		for i, reqs := range shapes {
+			for _, one := range []bool{true, false} {
+				sc := &world.Scenario{Nodes: T3m(), Bound: 2, Horizon: 300, Family: "empty-replies"}
+				sc.Clients = []world.ClientSpec{ClientOf(reqs, one)}
+				sc.Reply = func(w *world.World, bc *world.BConn, args [][]byte) ([]byte, int) {
+					if len(args) == 2 && world.Lower(args[0]) == "get" {
+						if r, ok := empties[string(args[1])]; ok {
+							return r, 0
+						}
+					}
+					return nil, 0
+				}
+				sc.Name = fmt.Sprintf("C01/empty-replies/shape%d/one=%v/d2", i, one)
+				sc.Check = func(w *world.World) []world.Violation { return CheckStreams(w, StreamOpts{}) }
+				out = append(out, sc)
+			}
+		}
+	}
+	// a slow client whose LOCAL replies (PING, unknown command, wrong arity) meet the full socket, more pipelined bytes behind
+	for _, shape := range []string{"pings", "mixed"} {
+		var reqs []Req
+		for j := 0; j < 8; j++ {
+			switch {
+			case shape == "mixed" && j%4 == 1:
+				reqs = append(reqs, UnknownReq())
+			case shape == "mixed" && j%4 == 2:
+				reqs = append(reqs, GetReq(keysA[j]))
+			case shape == "mixed" && j%4 == 3:
+				reqs = append(reqs, ArityReq())
+			default:
+				reqs = append(reqs, PingReq())
+			}
+		}
+		cs := ClientOf(reqs, true)
+		cs.Slow = true
+		sc := &world.Scenario{Nodes: T3m(), Bound: 2, Horizon: 400, Family: "slow-client-local-replies", WriteOracle: true, Clients: []world.ClientSpec{cs}}
+		sc.Name = fmt.Sprintf("C01/slow-client-local-replies/%s/d2", shape)
+		sc.Check = func(w *world.World) []world.Violation { return CheckStreams(w, StreamOpts{}) }
+		out = append(out, sc)
+	}
 	// a slow client with more than 64 KiB parked, a partial drain, then further forwarded and local replies
 	out = append(out, SlowClientOverflow("C01", 40000, 2))
 	// more replies / fragments than one vectored write takes (1024 slices)
